@@ -416,7 +416,12 @@ func (sortedSet *SortedSet) ZScan(cursor int64, match string, count int64) (int6
 		}
 		return true
 	})
-	return cursor + int64(len(items)), items
+	// the next call starts at the end of this window; 0 once the window has reached the last rank
+	next := cursor + count
+	if next >= sortedSet.ZCard() || next <= cursor {
+		next = 0
+	}
+	return next, items
 }
 
 func (sortedSet *SortedSet) GetValue() []byte {
